@@ -20,6 +20,30 @@ CHECKS = {
         technique="translation validation: Lean 4 kernel-checked equivalence checker (check_sound) fed with the real compiler's output vs the Lean source semantics, on generated programs",
         text="Every generated program is compiled by the real compiler and each routine is validated against the Lean small-step source semantics on the Lean SSB machine by a checker whose soundness (equal operation/test traces for every outcome of every test, halting preserved) is a kernel-checked theorem over all transition systems and relations. A verdict is per program; no forall-programs theorem about the compiler is claimed.",
         note=TV_NOTE + "The ANTLR parser and the compiler are not modelled."),
+    "C03_TEMP_DISABLED": dict(
+        level="proof", design="4/C03",
+        technique="Lean 4 theorems about a hand-written, statement-by-statement executable model of the ExplorerScript compiler after parsing "
+                  "(compile handlers with the op/label counters, allocate()d header numbers, lone-jump shortcut, loop/case stacks, macro blueprints and "
+                  "ExplorerScriptMacro.build, routine tables, routine_op_offsets_are_ordered, strip_last_label, LabelFinalizer, OpsLabelJumpToRemover) and "
+                  "of the SsbScript compiler (model of C07) + exact model-vs-implementation correspondence on generated programs (ops with RAW offsets "
+                  "and jump targets, tables, exception classes) + property oracle on the real compile results",
+        text="Kernel-checked: compile_closed — for ALL programs of the model's input language (any nesting of all statement forms, labels and jumps "
+             "across routines, alias routines, routine ids in any order, macros with nested calls and any resolution order handed in): if compilation "
+             "succeeds then op offsets are pairwise distinct across routines, every op named in OPS_WITH_JUMP_TO_MEM_OFFSET has as LAST parameter an int "
+             "that is the offset of an op of the result, the three tables are equally long (no pseudo item can remain: by typing) — under the decidable "
+             "guard NoUserJumpOps (no operation written in the source is itself named like a jump-carrying op); without the guard the property is false "
+             "on the real compiler ('def 0 { Jump(7); }', compile_closed_counterexample, known finding). Built from backend_closed (for ARBITRARY labelled "
+             "code with distinct op offsets the three back-end passes yield a closed result or fail; strip_last_label_offsets, finalizer_offsets_survive, "
+             "remover_closed) and counter_fresh (front-end invariant by induction over the statement tree: every offset handed out by Counter.__call__ / "
+             "allocate / visiting-time ticks / macro expansion is used at most once; dropped numbers are never reused), tables_same_length. "
+             "ssbscript_compile_closed: the same for the SsbScript compiler model under the guards MarkersLast (jump-carrying ops end in a @label marker) "
+             "and IdsFresh (no routine id negative or defined twice), each shown necessary by a counterexample theorem that also fails on the real code "
+             "(known findings).",
+        note=COMMON_NOTE + "The model starts after parsing; headers, assignments and message switches are lowered to opcode + parameters by the harness "
+             "(harness/gen/complower.py on the table of harness/gen/surface.py), so the theorem is about control-flow code generation, numbering, labels, macros "
+             "and the back end; the ANTLR parser is covered differentially (generated AST printed, text compiled by the real compiler, AST given to the model, "
+             "astdump(print(ast)) == ast). Macro resolution order is an input taken from the real compiler (C05); imports and source maps are not modelled. "
+             "Known findings: user_op_named_like_jump_op, ssbs_jump_op_without_trailing_marker, ssbs_routine_id_defined_twice."),
     "C04": dict(
         level="proof", design="4/C04",
         technique="Lean 4 theorems about a hand-written model of the literal printers and readers (ssb_data_types.py repr_string/escape_*/"
@@ -84,35 +108,34 @@ CHECKS = {
         note=COMMON_NOTE + "Pygments' RegexLexer engine, Lexer.get_tokens and Python's re module are MODELLED by hand, not verified: the tie is the per-run differential comparison (token lists on generated texts incl. exhaustive enumeration over the delimiter alphabet, every rule's compiled regex object vs the Lean matcher at random positions) plus table lemmas that fail to build when a regex, flag, state action or lexer option outside the modelled set appears. Unicode \\w/\\d membership tables are read from the running interpreter's re. words(): regex_opt's alternation order is argued irrelevant (keywords are ASCII word-character strings followed by \\b), not proved. Lone surrogates and bytes input are outside the model (surrogates are exercised on the real lexer only)."),
     "C10": dict(
         level="other", design="4/C10",
-        technique="(A) Lean 4 theorems about a hand-written model of the compiler's rejection sites (lean/ESV/Static/Wf.lean: add phase and collect phase of every "
-                  "compile handler in the real collect order, macro cycle check, import recursion with recursion_check, macros_only, strip_last_label on an "
-                  "op-free routine, OpsLabelJumpToRemover) on a static AST produced by the harness from the surface AST, tied to /repo on every run by "
-                  "exception-CLASS equality on generated statically invalid / valid programs and import worlds; (B) exploration of compile() on generated "
-                  "strings in worker processes (time and memory limits) with delta-debugged failing inputs; compile CLI run in a subprocess",
-        text="Split claim, reported separately in the evidence. PROOF (part A, kernel-checked for ALL static ASTs, ALL imported macro sets, ALL import worlds): "
+        technique="(A) Lean 4 theorems about a hand-written model of the compiler's rejection sites (lean/ESV/Static/Wf.lean: SsbScript dispatch, import recursion with "
+                  "recursion_check, macro cycle check, macros-only check, routine id check, add phase and collect phase of every compile handler in the real collect "
+                  "order, fixed-point routine target, OpsLabelJumpToRemover) on a static AST produced by the harness from the surface AST, tied to /repo on every run by "
+                  "exception-CLASS equality on generated statically invalid / valid programs and import worlds; (B) exploration of compile() on generated strings in "
+                  "worker processes (time and memory limits) with delta-debugged failing inputs; compile CLI run in a subprocess",
+        text="Split claim, reported separately in the evidence. PROOF (part A, kernel-checked for ALL static ASTs, ALL imported macro sets, ALL import worlds, no guard): "
              "a program containing `break` at a position not enclosed by a switch case (loops do not reset the case flag, macro bodies do), `continue`/`break_loop` "
-             "outside a loop, a switch ending in a case without statements, two defaults (switch or message switch), a message-switch case holding statements, "
-             "a label in a with-block, `not` on a bit test of a variable other than the performance progress list (if/elseif/while/for header), a call of an unknown "
-             "macro, a call leaving a macro variable without value (ValueError), recursion among the file's macros (cycle check proved complete: macroCycle_of_closed), "
-             "a missing import, an import cycle reachable from the compiled file, or a failing imported file is rejected by the model with a documented class "
-             "(rejects_* theorems, one per shape, plus core_rejects_* for Static.check on the core AST). A jump or call to a label no routine places (labels placed only "
-             "in macro bodies do not count; jumps inside macro expansions are private) is always rejected (rejects_jump_undefined) and with a documented class under the "
-             "decidable guard `Guard` (no routine consists of calls of label-only macros: the pinned strip_last_label raises IndexError there first — "
-             "error_kinds_counterexample, rejects_jump_undefined_counterexample, replayed on the real code every run). error_kinds: the model's only other class is that "
-             "IndexError. 'Routines in an imported file' is FALSE on the pinned code (routines_in_import_accepted, ssbscript_import_accepted: kernel-checked witnesses, "
-             "reproduced on the real compiler every run, known findings); it is proved for the model variant in which HasRoutinesVisitor visits the tree "
-             "(rejects_routines_in_import_if_reparsed). EXPLORATION (part B, no theorem): 'never another exception type' over strings — token/character corruptions of "
-             "valid programs, degenerate routines, routine headers, huge numbers, //?: attribute lines in all positions, SsbScript sources behind the attribute, random "
-             "Unicode, nesting up to 200; quick 3 200 strings, thorough 127 000. Every undocumented (type, innermost repository frame) pair of the pinned tree is listed in "
-             "known_findings.jsonl (17 kinds incl. two no-answer shapes); a new pair, an accepted defect, output left after a rejection, or a CLI that exits 0 / prints JSON "
-             "on rejection is a VIOLATION.",
+             "outside a loop, a jump or call to a label no routine places (labels placed only in macro bodies do not count; jumps inside macro expansions are private), "
+             "a switch ending in a case without statements, two defaults (switch or message switch), a message-switch case holding statements, a label in a with-block, "
+             "`not` on a bit test of a variable other than the performance progress list (if/elseif/while/for header), a call of an unknown macro, a call leaving a "
+             "macro variable without value (ValueError), recursion among the file's macros (cycle check proved complete: macroCycle_of_closed), a missing import, an "
+             "import cycle reachable from the compiled file, routines in an imported file, an imported SsbScript file, or any failing imported file is rejected by the "
+             "model with a documented class (rejects_* theorems, one per shape, plus core_rejects_* for Static.check on the core AST; also a first routine id other than "
+             "0 and a decimal routine target). error_kinds_documented / world_error_kinds_documented: every error of the model, with or without imports, is "
+             "SsbCompilerError or ValueError. The model follows the repaired /repo: the two clauses that were false on the pinned tree (IndexError from strip_last_label "
+             "before the label check; routines in imported files accepted) were repaired by fix: commits and the guards/counterexamples are gone. EXPLORATION (part B, "
+             "no theorem): 'never another exception type' over strings — token/character corruptions of valid programs, degenerate routines, routine headers, huge "
+             "numbers, //?: attribute lines in all positions, SsbScript sources behind the attribute, random Unicode, nesting up to 200; quick 3 200 strings, thorough "
+             "127 000. An undocumented exception type, a hang, an accepted defect, output left after a rejection, or a CLI that exits 0 / prints JSON on rejection is a "
+             "VIOLATION. The 17 (type, site) pairs / shapes found on the pinned tree are all repaired (known_findings.jsonl, status fixed) and their minimal inputs are "
+             "re-run first on every run.",
         note=COMMON_NOTE + "Part B is exploration only: the ANTLR runtime and the generated lexers/parsers are not modelled, so the exception class for an arbitrary string is "
-             "searched, not proved. The model covers the rejection sites, not the back end: the op-offset assert, LabelFinalizer, the routine table (negative / descending / "
-             "huge routine ids, decimal routine targets) are outside it and appear as known findings of part B. The compile order of the macros of one file (macro resolution "
-             "order, defect A4 of C05) is not modelled; generated macro call graphs are forests and a too-few-arguments call is never combined with a defect in another macro "
-             "body. Import paths are resolved by the harness (posix normalisation, lookup directories); realpath/symlinks are not modelled. Import recursion uses fuel = number "
-             "of files + 1; running out of fuel is reported as the SsbCompilerError the implementation raises one level earlier (pigeonhole argument, not proved). "
-             "Workers run compile() with Python's default recursion limit (1000) and 1500 MB address space."),
+             "searched, not proved. The model covers the rejection sites, not the back end: the order check on op offsets (a routine id written twice or out of order: "
+             "SsbCompilerError) and LabelFinalizer are outside it; generated programs write every id once, ascending. The compile order of the macros of one file (macro "
+             "resolution order, defect A4 of C05) is not modelled; generated macro call graphs are forests and a too-few-arguments call is never combined with a defect in "
+             "another macro body. Import paths are resolved by the harness (posix normalisation, lookup directories, directories count as not found); realpath/symlinks "
+             "are not modelled. Import recursion uses fuel = number of files + 1; running out of fuel is reported as the SsbCompilerError the implementation raises one "
+             "level earlier (pigeonhole argument, not proved). Workers run compile() with Python's default recursion limit (1000) and 1500 MB address space."),
     "C15": dict(
         level="proof", design="4/C15",
         technique="Lean 4 theorems about a hand-written model of cli/compile.py (build_ops, build_routines_json) and cli/decompile.py (parse_pos_mark_arg, "
@@ -147,6 +170,48 @@ CHECKS = {
         technique="property oracle on the real compiler over marked multi-file projects (every op-producing source node recognisable from the content of its op; positions from the harness printer) + Lean 4 proof of the SourceMapBuilder protocol for all command sequences and of the counting behind macro return addresses for all blueprints + per-input validation (recorded builder calls replayed through the Lean model, every ExplorerScriptMacro.build call re-derived by the Lean model of build, decidable disciplines of the theorems evaluated on the recorded run)",
         text="Proof (K3), kernel-checked for ALL command sequences of SourceMapBuilder: the entry under an offset is the argument of the last add_opcode / add_macro_opcode for it (entry_is_last_add); a macro entry takes return address and parameter mapping from the top of the context stack and the call position from the pending next_macro_opcode_called_in (macro_entry_uses_stack_top); a call position is consumed by exactly the next add_macro_opcode (called_in_once); no offset is in both tables when the offsets given to the two methods are disjoint (direct_and_macro_disjoint_if); a run raises iff a pop or add_macro_opcode happens outside every context, and bracketed sequences leave the stack as found (run_ok_iff_depthOk, push_pop_balanced). For ALL blueprint lists built from ops, labels, concatenation and outputs of build: expanding at counter c pushes c+n+1 (n = non-label items), hands out exactly the offsets c+1..c+n, each smaller than the return address on top of the stack at that moment, every nested return address equals the next number of the counter when its expansion ends (ret_addr_bounds, blueprint_seg, events_bounds), the builder calls of the model of build follow that machine (buildLoop_trace), and the list build returns (nested start labels carrying the substituted parameter mappings) is a blueprint again (buildItems_blueprint). Validation per explored input: which source node an op belongs to, the designated-node table (design_notes/C08.md), macro file / name / position, call position on the first op, return address bounds against the real emitted ops, files named, position marks — checked by the oracle on the real compiler's output; no forall-programs statement about the compile handlers is claimed.",
         note=COMMON_NOTE + "The compile handlers and the ANTLR parser are not modelled. Positions come from the harness printer (cross-checked by parsing the text back with the repository's parser). Label jumps (Jump/Call ops) carry no recognisable content and are checked only for an entry at the start of some statement, header or case. Three narrow known findings remain in known_findings.jsonl (outer call site shadowed when a macro starts with a macro call, call position recorded on an op that jump elimination drops, position mark tuple layout vs docs). Five defects found by this check were repaired in /repo (1dfd06a hang on Position literals in nested same-file macros, db2d608 wrong file for transitively imported macros, a2649b8 position marks of other macros of a file, d39fded null file for relayed position marks, 4303b4a wrong parameter mapping at depth 3); their witnesses run as regression tests that must pass, a regression is a VIOLATION with the witness as failing input."),
+    "C11": dict(
+        level="other", design="4/C11",
+        technique="Lean 4 theorems about an abstract protocol machine (K3) for the id(graph)-keyed memo table of graph_utils.py under ALL histories of "
+                  "alloc / mutate / clear / query (lookup, store sections) / drop with recyclable ids, plus two small object models (parameter `indent`, compiler object); "
+                  "trace validation: real convert() runs recorded by wrappers installed from outside are replayed through the Lean machine section by section and judged by the "
+                  "Lean discipline predicates; history exploration of the real code: every call after a generated history in a long-lived process is compared byte for byte "
+                  "with the same call alone in a fresh process, differences are shrunk and diagnosed",
+        text="Kernel-checked for ALL histories, graph ids (recycled or not), keys, arguments, contents and for an arbitrary search function: (cache_fresh) if every (re)allocation and "
+             "mutation of a graph is followed by a clear before the next query and no key is queried with two argument sets between clears, every value the table returns is the value "
+             "recomputed from the graph as it is now, from ANY earlier state of the table, and no KeyError; (call_independent_of_memo) a call whose queries all follow a clear of the "
+             "same id within the call gives identical outputs (values and hit/miss) from any two states of the table, in particular after any history and in a fresh process; "
+             "(tidy_prefix_then_fresh) the same holds for any call if the history before it left every table empty; counterexample theorems show that neither guard can be dropped "
+             "(an id recycled after an abandoned convert() answers with the dead graph's value). print_indent_only: printing writes nothing but `indent`, the op keeps its meaning and "
+             "compares equal; compile_reset: compile() on a reused object gives the results of a fresh object for every attribute it resets (macro_resolution_order is not one: "
+             "counterexample). On every run the recorded real histories (quick: ~10^4 sections) must agree with the machine and every recorded call must be Isolated or follow a Tidy "
+             "history - so the memo table cannot make a result depend on the history; all other process-wide state is covered by the exploration only: quick 100 histories x <= 6 calls, "
+             "thorough 5000 x <= 20, with failing inputs, abandoned decompilations, repeated inputs, reused compiler objects, gc and allocation churn, the decompile CLI helpers, fresh "
+             "processes with other hash seeds.",
+        note="K3: the machine is an abstraction of the locking/clearing protocol, not a model of the decompiler; the graph search `_impl` is a parameter. Trusted: Lean 4.33 kernel (axioms "
+             "audited per run), the instrumentation in harness/impl_cache.py (monkeypatches; completeness of the mutation hooks is cross-checked by graph fingerprints at every query), "
+             "the driver's JSON glue. NOT modellable and covered by exploration only: which ids CPython recycles (allocator state; id reuse is provoked, and observed in every run, but not "
+             "controlled), the ANTLR runtime's class-level ATN/DFA caches (known finding: they change the MESSAGE of ParseErrors), igraph's internals, hash-seed dependent iteration "
+             "orders. Known findings on the current tree: cli read_routines module-level counter, macro_resolution_order kept for SsbScript-marked sources, convert() twice on one "
+             "decompiler object, ParseError message; fixed during this round (16ab1ed): stale memo entry under a recycled id after an abandoned convert()."),
+    "C12": dict(
+        level="other", design="4/C12",
+        technique="Lean 4 theorem about the same memo-table machine shared by any number of threads under EVERY interleaving of the atomic sections the real functions consist of "
+                  "(lock;lookup;unlock - compute - lock;store;unlock - lock;clear;unlock, ids recyclable between threads); trace validation of recorded concurrent runs against the "
+                  "threaded Lean machine; schedule exploration of the real code: a deterministic PRNG-driven scheduler built on a sys.settrace line hook (schedule = replayable switch "
+                  "list) and free running threads with a 1 microsecond switch interval, each run in a fresh process, every call compared with the same call alone",
+        text="Kernel-checked (interleave_safe) for any number of threads, all programs and ALL schedules: if every thread follows the clear protocol on the graphs it owns, every query "
+             "returns the value recomputed from the thread's own graph as it is at that moment and no section raises KeyError - the unlocked compute and the store 'after the cache may "
+             "have been cleared in the meantime' are harmless, and recycled ids between threads are harmless; (interleave_sequential) hence, without ill-formed steps, every thread's query results are exactly those of its program run alone; "
+             "interleave_stale_counterexample shows the result of a thread that queries before clearing depends on the schedule. Real concurrent runs are replayed through the machine on every run (events must agree). The property itself (each call returns "
+             "what it returns alone, no foreign exception) is explored: quick ~20 scheduler runs (~10^6 yield points, ~10^5 thread switches) + ~20 free runs with 2-8 threads, thorough "
+             "~500 + ~400; sequential-in-process and fresh-process references.",
+        note="K3 abstraction as for C11; thread-private graphs (ownership) is an assumption of the theorem that the recorded runs are checked against (an op on a graph of another "
+             "thread would show as an ill-formed step). NOT modellable here, exploration only: the GIL's switch points inside C code (igraph, dict operations are atomic for the "
+             "scheduler), CPython's id recycling, the ANTLR runtime's shared ATN/DFA caches (half of the scheduler runs also trace the antlr4 ATN simulators so that switches happen "
+             "inside adaptivePredict/addDFAState; known finding: the MESSAGE of a ParseError depends on which thread parsed first). The deterministic scheduler serialises threads: it "
+             "explores interleavings at the granularity of traced lines of graph_utils, graph_minimizer, ssb_decompiler, explorerscript_reader, macro, compiler utils, ssb_compiler, "
+             "source_map only."),
 }
 
 PENDING_REASON ="check not built yet in this round (design in DESIGN.md §4); will be claimed once its Lean model and correspondence exist"
